@@ -25,6 +25,9 @@ ArgsEcho == << A("pe", "path", "one", TRUE, FALSE), A("qe", "query", "one", TRUE
                A("ql", "query", "many", TRUE, FALSE), A("he", "header", "one", TRUE, FALSE), A("ho", "header", "opt", TRUE, FALSE),
                A("pq", "query", "one", TRUE, FALSE), A("po", "query", "opt", TRUE, FALSE), A("pl", "query", "many", TRUE, FALSE),
                A("ph", "header", "one", TRUE, FALSE), A("pho", "header", "opt", TRUE, FALSE) >>
+(* macro endpoint exercising attribute forms: path parameters without `name`, log_as equal to ANOTHER parameter's template name *)
+ArgsAttrs == << A("b", "path", "one", TRUE, TRUE), A("bee", "path", "one", TRUE, FALSE), A("sea", "path", "one", TRUE, FALSE),
+                A("pq", "query", "one", TRUE, TRUE), A("hh", "header", "one", TRUE, FALSE) >>
 ArgsQuery == << A("qs", "query", "one", FALSE, FALSE), A("qo", "query", "opt", TRUE, FALSE), A("ql", "query", "many", TRUE, FALSE),
                 A("qset", "query", "many", FALSE, FALSE), A("qe", "query", "opt", TRUE, TRUE), A("qa", "query", "opt", TRUE, FALSE),
                 A("qoa", "query", "opt", FALSE, FALSE), A("qb", "query", "many", TRUE, FALSE) >>
